@@ -162,18 +162,25 @@ def angleAxis (angle : K) (axis : V3 K) : Quat K :=
   let im := vmul axis sin2
   { ix := im.x, iy := im.y, iz := im.z, r := cos2 }
 
-/-- `reb_rotation_init_to_new_axes`, parameterised by the from-to constructor -/
-def toNewAxesWith (ft : V3 K → V3 K → Quat K) (newz newx : V3 K) : Quat K :=
-  let dotprod := dot newz newx
+/-- `reb_rotation_init_to_new_axes` (rotations.c:224-234), parameterised by the from-to
+    constructor and by where the dot product used for the orthogonalisation of `newx` is
+    taken: as found, `dotprod = newz · newx` is computed **before** `newz` is normalised
+    (so the component removed from `newx` is wrong by the factor `|newz|`, finding F18);
+    with `fixDot` it is computed with the normalised `newz` (fixes/F18.diff). -/
+def toNewAxesWith (ft : V3 K → V3 K → Quat K) (fixDot : Bool) (newz newx : V3 K) : Quat K :=
+  let dotprod0 := dot newz newx
   let newz := normalize newz
+  let dotprod := if fixDot then dot newz newx else dotprod0
   let newx := vadd newx (vmul newz (-dotprod))
   let q1 := ft newz ez
   let newx := rotate newx q1
   let q2 := ft newx ex
   qmul q2 q1
 
-def toNewAxes (newz newx : V3 K) : Quat K := toNewAxesWith fromTo newz newx
-def toNewAxesFixed (newz newx : V3 K) : Quat K := toNewAxesWith fromToFixed newz newx
+/-- as found in the source -/
+def toNewAxes (newz newx : V3 K) : Quat K := toNewAxesWith fromTo false newz newx
+/-- with both repairs -/
+def toNewAxesFixed (newz newx : V3 K) : Quat K := toNewAxesWith fromToFixed true newz newx
 
 /-- `reb_rotation_init_orbit`: `P3 * (P2 * P1)` -/
 def orbit (Omega inc omega : K) : Quat K :=
